@@ -118,8 +118,13 @@ func zzLockDiscipline(w *zzWorld, op, t int, name string) {
 		zz.Assert(zz.LocksHeld() == 0, "C13.D1.locks-released/"+opName)
 		return
 	}
-	// native oracle for leaked locks: every scope's mutex can be taken afterwards
+	// native oracle for leaked locks: every scope's mutex can be taken afterwards;
+	// for recursive read locks: the (overlaid) mutex counts them while the one
+	// operation runs alone
+	zz.SingleGoroutine(true)
 	zzLockOp(w.real[t], op, name, v)
+	zz.SingleGoroutine(false)
+	zz.Assert(zz.RecursiveReadLocks() == 0, "C13.D1.no-self-deadlock/"+opName)
 	for _, e := range w.real {
 		if !e.rwMutex.TryLock() {
 			zz.Assert(false, "C13.D1.locks-released/"+opName)
